@@ -336,7 +336,10 @@ def run(ctx):
         intf._instantiate = lambda dom, rep: types.SimpleNamespace(period=5.5, rep=np.asarray(rep))
         payload = intf.to_domain(resp, problem=prob)
         got = [getattr(o, "period", None) for o in payload.family[1:]]
-        text.append("periods 11/2 %d %s" % (len(resp.family_repr), " ".join("none" if a is None else fr(a) for a in tr["aux"])))
+        # the model is told the periods the CORRECTOR reported for the accepted members, in order (the oracle record) -- not the backend's own
+        # bookkeeping of them, which is part of what is being checked
+        oks = [r[2] for r in recorded if r[0] == "ok"][:max(0, len(resp.family_repr) - 1)]
+        text.append("periods 11/2 %d %s" % (len(resp.family_repr), " ".join("none" if a is None else fr(a) for a in oks)))
         expected[-1].append("periods 11/2 " + " ".join(fr(p) for p in got) if got else "periods 11/2")
     out = [l for l in ctx.lean_run("Drivers/C13.lean", "\n".join(text) + "\n") if l.strip()]
     # model prints 9 lines per run + 1 for periods; compare the lines we also have from the real run
